@@ -229,3 +229,35 @@ pub fn c10_q_builder_key_lengths() {
         core::mem::forget(hs);
     }
 }
+
+/// The two public requirement tables, all 38 patterns x both roles in one query (symbolic pattern and role):
+/// `needs_local_static_key` / `need_known_remote_pubkey` must equal what the reference model derives from its
+/// token table (own `s` pre-message, an `s` token the role sends, or a DH token using its static key /
+/// the peer's `s` pre-message).
+#[kani::proof]
+#[kani::unwind(8)]
+pub fn c12_q_requirement_tables() {
+    let idx: usize = kani::any();
+    kani::assume(idx < 38);
+    let initiator: bool = kani::any();
+    let sp = SUPPORTED_HANDSHAKE_PATTERNS[idx];
+    let mut want_local = false;
+    let mut want_remote = false;
+    // concrete walk over the reference table, selected by the symbolic index
+    let mut c = 0;
+    while c < 7 {
+        let mut j = 0;
+        while j < 6 {
+            let i = c * 6 + j;
+            if i < 38 && i == idx {
+                want_local = ALL_PATS[i].needs_local_static(initiator);
+                want_remote = ALL_PATS[i].needs_remote_static(initiator);
+            }
+            j += 1;
+        }
+        c += 1;
+    }
+    kani::cover!(idx == 17 && initiator, "C12 tables: X1N initiator reachable");
+    assert!(sp.needs_local_static_key(initiator) == want_local, "C12: needs_local_static_key disagrees with the pattern's tokens");
+    assert!(sp.need_known_remote_pubkey(initiator) == want_remote, "C12: need_known_remote_pubkey disagrees with the pattern's pre-messages");
+}
